@@ -116,6 +116,8 @@ M = [
  ('R3C-EV7-debug-glam-assert-inverted', 'src/macros.rs', r's/all(debug_assertions, feature = "debug-glam-assert")/all(not(debug_assertions), feature = "debug-glam-assert")/', ['C20']),
  ('R3C-EV8-quat-deserialized-through-f32', 'src/features/impl_serde.rs', r'260s/let x = seq/let x: f32 = seq/;263s/let y = seq/let y: f32 = seq/;266s/let z = seq/let z: f32 = seq/;269s/let w = seq/let w: f32 = seq/;272s/from_xyzw(x, y, z, w)/from_xyzw(x as $t, y as $t, z as $t, w as $t)/', ['C19']),
  ('R3C-EV9-quat-deserialized-negated', 'src/features/impl_serde.rs', r'272s/Ok([$]quat::from_xyzw(x, y, z, w))/Ok(-$quat::from_xyzw(x, y, z, w))/', ['C19']),
+ ('R3C-EV10-write-to-slice-refuses-nan', 'src/f64/dvec3.rs', r'155s/^/        assert!(!self.is_nan(), "refusing to write NaN");\n/', ['C18']),
+ ('R3C-EV11-dvec2-from-array-adds-zero', 'src/f64/dvec2.rs', r'119s/Self::new(a\[0\], a\[1\])/Self::new(a[0] + 0.0, a[1] + 0.0)/', ['C17']),
  ('R3C-EV1-arc-assert-wrong-operand', 'src/f32/sse2/quat.rs', r'320s/to.is_normalized()/from.is_normalized()/', ['C20']),
  ('R3C-EV2-project-onto-normalized-asserts-self', '@sh', r"for f in $(grep -rl 'glam_assert!(rhs.is_normalized());' src); do sed -i 's/glam_assert!(rhs.is_normalized());/glam_assert!(self.is_normalized());/' $f; done", ['C20']),
  ('R3C-EV3-look-to-up-assert-dropped', 'src/f32/sse2/mat4.rs', r'830d', ['C20']),
